@@ -8,8 +8,10 @@ import (
 	"go.nanomsg.org/mangos/v3"
 	"go.nanomsg.org/mangos/v3/internal/core"
 	_ "go.nanomsg.org/mangos/v3/transport/inproc"
+	_ "go.nanomsg.org/mangos/v3/transport/tcp"
 	"go.nanomsg.org/mangos/v3/vh/kinds"
 	"go.nanomsg.org/mangos/v3/vh/kit"
+	net "go.nanomsg.org/mangos/v3/vh/vnet"
 	"go.nanomsg.org/mangos/v3/vh/vt"
 	"go.nanomsg.org/mangos/v3/vz/vexplore"
 )
@@ -34,6 +36,8 @@ func init() {
 			&vexplore.Scenario{Name: fmt.Sprintf("core-objects-hist-D%d", d), Mode: "hist", Reset: kit.ResetGlobals, Body: func() { coreHist(d) },
 				NeedCounters: []string{"census-clean", "closed-listener", "closed-dialer", "closed-pipe", "redial-pending-at-close", "refused-pipe"}},
 			&vexplore.Scenario{Name: "close-context-only", Mode: "enum", Reset: kit.ResetGlobals, Body: closeContextOnly},
+			&vexplore.Scenario{Name: "tcp-close-vs-stalled-handshake", Mode: "enum", Reset: kit.ResetGlobals, Body: tcpStalledHandshake,
+				NeedCounters: []string{"stalled-inbound-closed", "stalled-outbound"}},
 		)
 		return out
 	})
@@ -471,6 +475,77 @@ func inprocDialWaiting() {
 	kit.Quiesce()
 	census("inproc dial waiting vs listener close")
 	kit.Observe("d2=%s", kit.ErrName(d2.Err))
+}
+
+// tcpStalledHandshake: the real tcp transport and SP handshake over the in-memory network.  A
+// connection whose peer went silent after n bytes of its header (n = 0..7) is in its handshake,
+// inbound (we listen) or outbound (we dial, synchronously or in the background), when the socket
+// is closed.  Close has to return, the connection has to be closed and nothing may remain.
+func tcpStalledHandshake() {
+	k := kinds.ByName([]string{"pair", "xpub", "rep"}[kit.ChooseFree(3)])
+	side := kit.ChooseFree(3) // 0 listen, 1 dial in the background, 2 dial synchronously
+	n := kit.ChooseFree(8)
+	s, err := k.New()
+	if err != nil {
+		kit.Failf("setup", "NewSocket: %v", err)
+	}
+	addr := "127.0.0.1:4310"
+	ep := net.VGet(addr)
+	hdr := []byte{0, 'S', 'P', 0, byte(s.Info().Peer >> 8), byte(s.Info().Peer), 0, 0}
+	var h *net.VConn
+	var dc *kit.Call
+	what := ""
+	switch side {
+	case 0:
+		what = "inbound"
+		if err := s.Listen("tcp://" + addr); err != nil {
+			kit.Failf("setup", "Listen: %s", kit.ErrName(err))
+		}
+		h = ep.Connect()
+	default:
+		what = "outbound"
+		ep.HarnessListen(true)
+		asynch := side == 1
+		if !asynch {
+			what = "outbound-sync"
+		}
+		dc = kit.Start("Dial", func() (interface{}, error) {
+			return nil, s.DialOptions("tcp://"+addr, map[string]interface{}{mangos.OptionDialAsynch: asynch})
+		})
+		kit.Quiesce()
+		if len(ep.Dialed) != 1 {
+			kit.Failf("setup", "dialer made %d connections", len(ep.Dialed))
+		}
+		h = ep.Dialed[0]
+	}
+	h.Feed(hdr[:n])
+	kit.Quiesce()
+	kit.Sleep(time.Second)
+	kit.Quiesce()
+	cc := kit.Start("Close", func() (interface{}, error) { return nil, s.Close() })
+	kit.Quiesce()
+	sig := fmt.Sprintf("%s:tcp", what)
+	if !cc.Done() {
+		kit.Failf("close-blocked:stalled-handshake:"+sig, "%s: Close did not return while a %s connection was stalled %d bytes into the handshake", k.Name, what, n)
+	}
+	kit.Sleep(time.Hour)
+	kit.Quiesce()
+	if side == 0 {
+		kit.Count("stalled-inbound-closed")
+	} else {
+		kit.Count("stalled-outbound")
+	}
+	if dc != nil && !dc.Done() {
+		kit.Failf("dial-left-blocked:stalled-handshake:"+sig, "%s: Dial is still blocked an hour after the socket was closed (peer silent %d bytes into the handshake)", k.Name, n)
+	}
+	if !h.ClosedByMangos() {
+		kit.Failf("connection-left-open:stalled-handshake:"+sig, "%s: the %s connection stalled %d bytes into the handshake is still open an hour after the socket was closed", k.Name, what, n)
+	}
+	if bad := kit.Census(); bad != "" {
+		kit.Failf("leak:stalled-handshake:"+sig, "%s: %s connection stalled %d bytes into the handshake, socket closed, this remains: %s", k.Name, what, n, bad)
+	}
+	kit.Count("census-clean")
+	kit.Observe("%s %s n=%d", k.Name, what, n)
 }
 
 // Bodies re-run by C11 under the race-instrumented build.
